@@ -5,10 +5,8 @@ package h
 import (
 	"context"
 	"fmt"
-	"os"
 	"sort"
 	"strings"
-	"sync"
 	"time"
 
 	dtypes "github.com/sdcio/data-server/pkg/datastore/types"
@@ -207,71 +205,23 @@ func runC16() int {
 		}
 		return clause + ":" + scn
 	}
-	if len(os.Args) > 2 && os.Args[2] == "shard" {
-		// harness B, one scenario per shard
-		u, err := LoadUniverse()
-		if err != nil {
-			return fail(err)
-		}
-		var idx int
-		fmt.Sscan(os.Args[3], &idx)
-		scs := c16bScenarios(u)
-		defer c16bCache.Close()
-		srep := &Reporter{Property: "C16", bySig: map[string][]*Violation{}}
-		tot := exploreScenarios(srep, scs[idx:idx+1], pbB(), pbB(), 20000, time.Now().Add(deadlineFor(6*time.Minute, 90*time.Minute)), sigOf)
-		var vs []*Violation
-		for _, l := range srep.bySig {
-			for _, v := range l {
-				if v != nil {
-					vs = append(vs, v)
-				}
-			}
-		}
-		return writeShardResult(map[string]any{"Tot": tot, "Violations": vs})
-	}
-	tot := exploreScenarios(rep, c16Scenarios(), pb, db, 3000, time.Now().Add(deadlineFor(8*time.Minute, 2*time.Hour)), sigOf)
-	// harness B in parallel worker processes (the scheduler is a process-wide singleton)
+	// harness A (manager level) and harness B (datastore level) in worker processes (the scheduler is a process-wide
+	// singleton); every exploration tree is split over the workers
 	u, err := LoadUniverse()
 	if err != nil {
 		return fail(err)
 	}
-	nB := len(c16bScenarios(u))
-	type shardOut struct {
-		Tot        *schedTotals
-		Violations []*Violation
+	defer c16bCache.Close()
+	scs := c16Scenarios()
+	for _, b := range c16bScenarios(u) {
+		scenarioPB[b.Name] = pbB()
+		scenarioDB[b.Name] = pbB()
+		scs = append(scs, b)
 	}
-	outs := make([]shardOut, nB)
-	var wg sync.WaitGroup
-	failed := false
-	for i := 0; i < nB; i++ {
-		wg.Add(1)
-		go func(i int) {
-			defer wg.Done()
-			if err := runShard("C16", fmt.Sprint(i), fmt.Sprint(nB), &outs[i]); err != nil {
-				fmt.Fprintln(os.Stderr, err)
-				failed = true
-			}
-		}(i)
-	}
-	wg.Wait()
-	if failed {
-		return 2
-	}
-	for _, o := range outs {
-		for _, v := range o.Violations {
-			rep.Add(v)
-		}
-		tot.Executions += o.Tot.Executions
-		tot.Points += o.Tot.Points
-		tot.Divergences += o.Tot.Divergences
-		tot.Horizons += o.Tot.Horizons
-		tot.Capped = tot.Capped || o.Tot.Capped
-		for k, n := range o.Tot.Outcomes {
-			tot.Outcomes[k] += n
-		}
-		if len(tot.Samples) < 8 {
-			tot.Samples = append(tot.Samples, o.Tot.Samples...)
-		}
+	shardByBranch = true
+	tot, code := exploreSharded(rep, "C16", scs, pb, db, 20000, deadlineFor(10*time.Minute, 75*time.Minute), sigOf)
+	if code != 0 {
+		return code
 	}
 	return rep.Finish(tot.coverage(map[string]any{"harness": "A: TransactionManager level with a recording rollbacker; B: Datastore level (real cache, recording device, real rollback)", "preemption_bound_harness_B": pbB()}))
 }
